@@ -207,6 +207,35 @@ where
     }
 }
 
+#[cfg(lzma_rs_verif)]
+impl<W> Stream<W>
+where
+    W: Write,
+{
+    /// Stream state as bytes (verification hook): `None` after a failed write; otherwise the staged
+    /// bytes, and in the data state also range, code, the window's length and the decoder state.
+    pub fn verif_state_bytes(&self) -> Option<Vec<u8>> {
+        let tmp = &self.tmp.get_ref()[..self.tmp.position() as usize];
+        match self.state.as_ref() {
+            None => None,
+            Some(State::Header(_)) => {
+                let mut out = vec![0u8, tmp.len() as u8];
+                out.extend_from_slice(tmp);
+                Some(out)
+            }
+            Some(State::Data(rs)) => {
+                let mut out = vec![1u8, tmp.len() as u8];
+                out.extend_from_slice(tmp);
+                out.extend_from_slice(&rs.range.to_le_bytes());
+                out.extend_from_slice(&rs.code.to_le_bytes());
+                out.extend_from_slice(&(rs.output.len() as u64).to_le_bytes());
+                out.extend_from_slice(&rs.decoder.verif_state_bytes());
+                Some(out)
+            }
+        }
+    }
+}
+
 impl<W> Debug for Stream<W>
 where
     W: Write + Debug,
